@@ -120,15 +120,15 @@ var sections = []section{
 	}},
 	{"leveldb", "cluster_leveldb", func() config.ComponentConfig { return &leveldb.Config{} }, []field{
 		{"folder", kPath, "FOLDER"},
-		{"leveldb_options.block_cache_capacity", kInt, ""}, {"leveldb_options.block_cache_evict_removed", kBool, ""}, {"leveldb_options.block_restart_interval", kInt, ""},
-		{"leveldb_options.block_size", kInt, ""}, {"leveldb_options.compaction_expand_limit_factor", kInt, ""}, {"leveldb_options.compaction_gp_overlaps_factor", kInt, ""},
+		{"leveldb_options.block_cache_capacity", kInt, "LEVELDBOPTIONS_BLOCKCACHECAPACITY"}, {"leveldb_options.block_cache_evict_removed", kBool, ""}, {"leveldb_options.block_restart_interval", kInt, "LEVELDBOPTIONS_BLOCKRESTARTINTERVAL"},
+		{"leveldb_options.block_size", kInt, "LEVELDBOPTIONS_BLOCKSIZE"}, {"leveldb_options.compaction_expand_limit_factor", kInt, ""}, {"leveldb_options.compaction_gp_overlaps_factor", kInt, ""},
 		{"leveldb_options.compaction_l0_trigger", kInt, ""}, {"leveldb_options.compaction_source_limit_factor", kInt, ""}, {"leveldb_options.compaction_table_size", kInt, ""},
 		{"leveldb_options.compaction_table_size_multiplier", kFloat, ""}, {"leveldb_options.compaction_table_size_multiplier_per_level", kFloatList, ""},
 		{"leveldb_options.compaction_total_size", kInt, ""}, {"leveldb_options.compaction_total_size_multiplier", kFloat, ""}, {"leveldb_options.compaction_total_size_multiplier_per_level", kFloatList, ""},
 		{"leveldb_options.compression", kUint, ""}, {"leveldb_options.disable_buffer_pool", kBool, ""}, {"leveldb_options.disable_block_cache", kBool, ""},
 		{"leveldb_options.disable_compaction_backoff", kBool, ""}, {"leveldb_options.disable_large_batch_transaction", kBool, ""}, {"leveldb_options.iterator_sampling_rate", kInt, ""},
-		{"leveldb_options.no_sync", kBool, ""}, {"leveldb_options.no_write_merge", kBool, ""}, {"leveldb_options.open_files_cache_capacity", kInt, ""},
-		{"leveldb_options.read_only", kBool, ""}, {"leveldb_options.strict", kUint, ""}, {"leveldb_options.write_buffer", kInt, ""},
+		{"leveldb_options.no_sync", kBool, ""}, {"leveldb_options.no_write_merge", kBool, ""}, {"leveldb_options.open_files_cache_capacity", kInt, "LEVELDBOPTIONS_OPENFILESCACHECAPACITY"},
+		{"leveldb_options.read_only", kBool, ""}, {"leveldb_options.strict", kUint, ""}, {"leveldb_options.write_buffer", kInt, "LEVELDBOPTIONS_WRITEBUFFER"},
 		{"leveldb_options.write_l0_pause_trigger", kInt, ""}, {"leveldb_options.write_l0_slowdown_trigger", kInt, ""},
 	}},
 }
